@@ -455,6 +455,7 @@ class Machine:
         self.max_steps = max_steps
         self.max_depth = max_depth
         self.max_len = (1 << 63) - 1   # L2 machines bound lengths (length arithmetic is assumed not to overflow usize)
+        self.cuts = set()              # loop-head blocks of the root body: a path ends when it reaches one of them a second time
         self.fid = 0
         self.visited_blocks = {}   # inst key -> set(bb)
         self.assert_sites = {}     # (inst key, bb) -> {'ok': n, 'open': n, info}
@@ -1177,14 +1178,19 @@ class Machine:
 
     # -- running ---------------------------------------------------------------------
 
-    def run(self, inst, args, st=None):
-        """Interpret `inst` with the given argument values; returns list of Outcome."""
+    def run(self, inst, args, st=None, start_bb=None, init_locals=None):
+        """Interpret `inst` with the given argument values; returns list of Outcome.
+        start_bb / init_locals: start in the middle of the body (at a loop head) with the given local values."""
         st = st or State()
         body = inst['body']
         self.fid += 1
         fr = Frame(inst, body, self.fid)
         for i, a in enumerate(args):
             st.mem[(fr.fid, i + 1)] = a
+        if start_bb is not None:
+            fr.bb = start_bb
+        for l, v in (init_locals or {}).items():
+            st.mem[(fr.fid, l)] = v
         work = [Config(st, [fr])]
         outs = []
         nconf = 0
@@ -1193,7 +1199,9 @@ class Machine:
             cfg = work.pop()
             nconf += 1
             if nconf > self.max_configs:
-                raise Abort('too many paths (> %d)' % self.max_configs)
+                ex = Abort('too many paths (> %d)' % self.max_configs)
+                ex.partial = outs
+                raise ex
             while True:
                 total_steps += 1
                 if total_steps > self.max_steps:
@@ -1256,7 +1264,19 @@ class Machine:
     def step(self, cfg):
         """Execute the current block of the top frame.  Returns None (continue), [configs] or Outcome."""
         fr = cfg.stack[-1]
+        if self.cuts and len(cfg.stack) == 1 and fr.bb in self.cuts:
+            cv = dict(cfg.st.extra.get('cutvisits') or {})
+            if cv.get(fr.bb, 0) >= 1:
+                o = Outcome(cfg.st, 'cut')
+                o.why = fr.bb
+                return o
+            cv[fr.bb] = cv.get(fr.bb, 0) + 1
+            cfg.st.extra['cutvisits'] = cv
         blk = fr.body['blocks'][fr.bb]
+        if blk['t']['k'] == 'yield':
+            for s_ in blk['s']:
+                self.stmt(cfg, fr, s_)
+            return Outcome(cfg.st, 'yield')
         self.visited_blocks.setdefault(fr.inst['key'], set()).add(fr.bb)
         cfg.steps += 1
         if cfg.steps > 60000:
@@ -1460,6 +1480,7 @@ class Machine:
             c = f['ctor']
             return self.finish_call(cfg, dest, ret_bb, Adt(c['adt'], c['variant'], args))
         names = [f.get('rpath'), f.get('path')]
+        names = names + [std_name(n) for n in names if n and std_name(n) != n]   # no_std crates print core:: / alloc:: paths
         handler = None
         for n in names:
             if n and n in self.overrides:
@@ -1587,6 +1608,7 @@ class Machine:
             c = f['ctor']
             return self.finish_call(cfg, dest, ret_bb, post(self, cfg, Adt(c['adt'], c['variant'], args)))
         names = [f.get('rpath'), f.get('path')]
+        names = names + [std_name(n) for n in names if n and std_name(n) != n]
         handler = None
         for n in names:
             if n and n in self.overrides:
@@ -1686,6 +1708,14 @@ class Machine:
 
 # ---------------------------------------------------------------------------
 # helpers
+
+
+_STD_RE = re.compile(r'(?<![A-Za-z0-9_])(core|alloc)::')
+
+
+def std_name(n):
+    """canonical std:: spelling of a core:: / alloc:: path (primitive tables are keyed by std:: names)"""
+    return _STD_RE.sub('std::', n) if n else n
 
 
 def lin_add(a, b, sign):
